@@ -7,6 +7,7 @@ import ast
 from vlib.core import AnalysisError, Report
 from vlib.grammar import EMPTY, GrammarModel, Slot, ladder
 from vlib.nodemodel import NodeModel
+from vlib.match import X, atoms, deref, nodes
 from vlib.precedence import python_precedence
 from vlib.srcindex import ClassInfo, FuncInfo, SourceIndex, attr_chain, const_str, unparse, walk_no_nested
 
@@ -345,9 +346,12 @@ def rule_c(rep: Report, idx: SourceIndex, nm: NodeModel, gm: GrammarModel) -> No
 				r.ok(f'tag:{tag}:{c.name}', where)
 		r.ok(f'tag:{tag}:last={classes[-1].name}', where)
 	# the resolver takes the first accepting class in registration order
-	rr = idx.mod('rogw/tranp/syntax/node/resolver.py')
-	fsrc = unparse(rr.tree)
-	r.check('for ctor in' in fsrc and 'match_feature' in fsrc, 'first-match', (rr.relpath, 1), 'NodeResolver no longer iterates candidate classes in order and takes the first whose match_feature accepts')
+	from checks.c10 import first_accepting
+	verdict, msg = first_accepting(idx)
+	if verdict == 'skip':
+		r.skip('first-match', ('rogw/tranp/syntax/node/resolver.py', 1), msg)
+	else:
+		r.check(verdict == 'ok', 'first-match', ('rogw/tranp/syntax/node/resolver.py', 1), msg)
 
 
 # ---- (d) dropped children (report) ----------------------------------------------------------------------------------------------
@@ -407,19 +411,28 @@ def rule_e(rep: Report, idx: SourceIndex, nm: NodeModel, gm: GrammarModel) -> No
 	r = rep.rule('C02/decl-matcher-discriminates-tag', 'for every parent tag that DeclableMatcher.is_decl_local_var treats as "identified by name only": if the grammar also allows a `var` (expression) child there, the matcher requires the entry tag to be `name`', floor=2)
 	pm = idx.mod('rogw/tranp/syntax/node/definition/primary.py')
 	f = pm.func('DeclableMatcher.is_decl_local_var')
+	fx = X(f)
 	parents: list[str] = []
-	cond = None
-	for n in ast.walk(f.node):
-		if isinstance(n, ast.Compare) and len(n.ops) == 1 and isinstance(n.ops[0], ast.In) and 'parent_tag' in unparse(n.left) and isinstance(n.comparators[0], ast.List):
-			parents = [const_str(e) for e in n.comparators[0].elts if const_str(e)]
-	for n in ast.walk(f.node):
-		if isinstance(n, ast.If) and 'is_identified_by_name_only' in unparse(n.test) and any(isinstance(x, ast.Return) and isinstance(x.value, ast.Constant) and x.value.value is True for x in n.body):
-			cond = n
-	if not parents or cond is None:
-		r.undecided('shape', f.where, 'is_decl_local_var no longer has the `parent_tag in [...]` early-accept branch')
+	tsrc = ''
+	requires_name = False
+	line = f.node.lineno
+	for n in nodes(fx, ast.Return):
+		if not (isinstance(n.value, ast.Constant) and n.value.value is True):
+			continue
+		known = atoms(fx, n)
+		for a, p_ in known:
+			if p_ and isinstance(a, ast.Compare) and len(a.ops) == 1 and isinstance(a.ops[0], ast.In) and unparse(a.left).endswith('parent_tag'):
+				coll = deref(fx, a.comparators[0])
+				if isinstance(coll, (ast.List, ast.Tuple, ast.Set)):
+					parents = [const_str(e) for e in coll.elts if const_str(e)]
+					tsrc = ' and '.join(('' if p2 else 'not ') + unparse(a2) for a2, p2 in known)
+					line = n.lineno
+					requires_name = any(p2 and isinstance(a2, ast.Compare) and len(a2.ops) == 1 and isinstance(a2.ops[0], ast.Eq) and unparse(a2.left).endswith('last_tag') and const_str(a2.comparators[0]) == 'name' for a2, p2 in known)
+	if not parents:
+		r.skip('shape', f.where, 'is_decl_local_var no longer has a `parent_tag in (...)` early-accept branch')
+		r.floor = 1
 		return
 	tags = set(nm.tags_of(nm.by_name['DeclLocalVar']))
-	tsrc = unparse(cond.test)
 	requires_name = "last_tag == 'name'" in tsrc
 	for p_ in parents:
 		kids = gm.child_tags(p_)
@@ -427,6 +440,6 @@ def rule_e(rep: Report, idx: SourceIndex, nm: NodeModel, gm: GrammarModel) -> No
 		if not kids:
 			r.violate(f'parent:{p_}', f.where, f'`{p_}` is not a tag of data/grammar.lark')
 		elif mixed:
-			r.check(requires_name, f'parent:{p_}', (pm.relpath, cond.lineno), f'under `{p_}` the grammar allows {mixed} children (expressions) besides the declared `name`; the early-accept branch `{tsrc}` does not require the entry tag to be `name`, so a bare name used as an expression there (`with lock:`) is classified as a declaration instead of a reference', tsrc)
+			r.check(requires_name, f'parent:{p_}', (pm.relpath, line), f'under `{p_}` the grammar allows {mixed} children (expressions) besides the declared `name`; the early-accept branch `{tsrc}` does not require the entry tag to be `name`, so a bare name used as an expression there (`with lock:`) is classified as a declaration instead of a reference', tsrc)
 		else:
-			r.ok(f'parent:{p_}', (pm.relpath, cond.lineno), message='only `name` children can be DeclLocalVar candidates here')
+			r.ok(f'parent:{p_}', (pm.relpath, line), message='only `name` children can be DeclLocalVar candidates here')
